@@ -142,6 +142,9 @@ func EvaluateCases(prop, tag string, cases []*Case, sc *core.Scratch, ev *core.E
 		}
 	}
 	cases = live
+	if !strings.HasSuffix(tag, "static") {
+		cases = append(cases, Probes(prop)...)
+	}
 	if _, err := RunCases(sc, ev, tag, cases); err != nil {
 		return 0, 0, err
 	}
